@@ -4,15 +4,20 @@
    labels every edge of the state graph with the call (see harness/README.md). *)
 EXTENDS AtomContainerOps
 
-CONSTANTS MaxN, MaxD, Depth, Rich, FormLevel
+CONSTANTS MaxN, MaxD, Depth, Rich, FormLevel, Shaped
 
 VARIABLES S, oc, out, op
 vars == <<S, oc, out, op>>
 
 Seeds ==
   {Fresh("array", k, 1, 0, wb, wx, ex) :
-     k \in 0..3, wb \in BOOLEAN, wx \in BOOLEAN, ex \in {{}, {"b_factor", "flag", "label"}}}
+     k \in 0..3, wb \in BOOLEAN, wx \in BOOLEAN, ex \in {{}, ScalarExtras}}
   \cup {Fresh("stack", k, d, 0, wb, wx, {}) : k \in {0, 2, 3}, d \in {1, 2}, wb \in BOOLEAN, wx \in BOOLEAN}
+  \* objects whose optional annotations include the array-valued ones (ShapedExtras), arrays and stacks
+  \cup (IF Shaped THEN {Fresh("array", k, 1, 0, wb, wb, Extras) : k \in 0..3, wb \in BOOLEAN}
+                        \cup {Fresh("array", k, 1, 0, FALSE, TRUE, ShapedExtras) : k \in {1, 3}}
+                        \cup {Fresh("stack", k, d, 0, wb, ~wb, Extras) : k \in {0, 2, 3}, d \in {1, 2}, wb \in BOOLEAN}
+                   ELSE {})
 
 OneD(n) ==
   IntIdx((-n-1)..n) \cup MaskIdx(n)
@@ -98,8 +103,9 @@ IntPairArgs(vi, vj, zi, zj) ==
   \cup {x \in {<<i, j, fp[1], fp[2]>> : i \in zi \cap vi, j \in zj \cap vj, fp \in FormPairs} :
           FitsForm(x[1], x[3]) /\ FitsForm(x[2], x[4])}
 
-OperandDescs == {<<0, FALSE, FALSE, {}>>, <<2, TRUE, FALSE, {}>>, <<2, FALSE, TRUE, {"flag"}>>,
-                 <<1, TRUE, TRUE, {"b_factor", "flag", "label"}>>}
+\* operands lacking all / some / none of the optional annotations (scalar and array-valued)
+OperandDescs == {<<0, FALSE, FALSE, {}>>, <<2, TRUE, FALSE, {}>>, <<2, FALSE, TRUE, {"flag", "grid"}>>,
+                 <<1, TRUE, TRUE, Extras>>}
 
 CallsFor(kind, n, d) ==
        {<<"index", x>> : x \in IndexArgs(kind, n, d)}
@@ -121,15 +127,26 @@ CallsFor(kind, n, d) ==
   \cup {<<"set_annot", <<[i \in 1..n |-> 40 - i]>>>>, <<"set_annot", <<[i \in 1..(n+1) |-> 5]>>>>}
   \cup {<<"add_extra", <<"flag">>>>, <<"add_extra", <<"label">>>>, <<"del_extra", <<"flag">>>>,
         <<"del_extra", <<"b_factor">>>>}
+  \cup {<<"add_extra", <<x>>>> : x \in ShapedExtras} \cup {<<"del_extra", <<"vec">>>>, <<"del_extra", <<"names">>>>}
   \cup {<<"set_bonds", <<n, <<>>>>>>, <<"set_bonds", <<n, <<<<0, -1, 6>>>>>>>>,
         <<"set_bonds", <<n, <<<<1, 0, 2>>, <<0, 1, 1>>, <<-1, 0, 9>>>>>>>>, <<"set_bonds", <<n + 1, <<>>>>>>}
   \cup {<<"clear_bonds", <<>>>>, <<"set_box", <<5>>>>, <<"clear_box", <<>>>>, <<"copy", <<>>>>,
         <<"copy_poke", <<>>>>, <<"poke_after_copy", <<>>>>}
   \cup {<<"from_template", <<k, b>>>> : k \in 1..2, b \in BOOLEAN}
 
+\* every index / integer position of the call is in its default form
+DefaultFormsOnly(o, arg) ==
+  CASE o = "index" -> \A k \in 2..Len(arg) : arg[k][3] = DefaultForm(arg[k][1])
+    [] o \in {"del_atom", "del_model"} -> arg[2] = "py"
+    [] o \in {"set_atom", "take_then_overwrite"} -> arg[5] = "py"
+    [] o = "swap_atoms" -> arg[3] = "py" /\ arg[4] = "py"
+    [] o = "set_model" -> arg[4] = "py" /\ arg[5] = "py"
+    [] OTHER -> TRUE
+
+\* <<kind, n, d, op, arg, default forms only>>
 AllCalls ==
-  {<<"any", 0, 0, "new", s>> : s \in Seeds}
-  \cup UNION {{<<kind, n, d, c[1], c[2]>> : c \in CallsFor(kind, n, d)} :
+  {<<"any", 0, 0, "new", s, TRUE>> : s \in Seeds}
+  \cup UNION {{<<kind, n, d, c[1], c[2], DefaultFormsOnly(c[1], c[2])>> : c \in CallsFor(kind, n, d)} :
                 kind \in {"array", "stack"}, n \in 0..MaxN, d \in 1..MaxD}
 
 \* every generated call is in the form domain
@@ -149,6 +166,9 @@ Call(c) ==
   /\ \/ (c[1] = "any" /\ S = Empty)          \* objects are built at the start of a behaviour
      \/ (c[1] = S.kind /\ c[2] = N(S) /\ c[3] = D(S))
   /\ InDomain(c)
+  \* the two value classes are not multiplied: objects with array-valued annotations take every call
+  \* in the default forms (the recorded histories mix forms and shapes at random)
+  /\ (c[6] \/ ~HasShaped(S))
   /\ (c[4] = "index" => Dom_Index(S, c[5]))
   /\ LET r == Apply(S, c[4], c[5]) IN
      /\ N(r.st) <= MaxN /\ D(r.st) <= MaxD
